@@ -16,6 +16,8 @@ import (
 	"time"
 
 	"github.com/thomasjungblut/go-sstables/simpledb"
+	"github.com/thomasjungblut/go-sstables/skiplist"
+	"github.com/thomasjungblut/go-sstables/sstables"
 
 	"verif/internal/fw"
 	"verif/internal/strace"
@@ -102,6 +104,25 @@ func c10Craft(args []string) int {
 		table()
 	}
 	switch *scenario {
+	case 6:
+		// everything that was flushed is deleted again and one compaction over ALL tables has run to its success flag:
+		// its merged table is empty; the image has it flagged but not installed
+		for i := 0; i < 8; i++ {
+			_ = db.Delete(fmt.Sprintf("k%d", i))
+		}
+		_ = db.VerifForceRotate()
+		waitFlushIdle(60 * time.Second)
+		md, err := db.VerifExecuteCompactionOnly()
+		if err != nil || md == nil {
+			fmt.Println("ERR compaction", err)
+			return 3
+		}
+		if r.Intn(2) == 0 {
+			put(1 + r.Intn(2))
+		}
+	case 7:
+		// (the directory already holds a legacy-format table, placed there before this process opened it)
+		put(1 + r.Intn(4))
 	case 5:
 		// a compaction over 170..210 one-record tables: its success flag lists so many inputs that it is written with
 		// several write calls; the image has the flag cut after the first full buffer (8-byte header + 4096 bytes)
@@ -178,10 +199,33 @@ func runC10Crafted(c *fw.Case, j int) {
 	work := c.Dir
 	dir := filepath.Join(work, "crafted")
 	_ = os.MkdirAll(dir, 0755)
-	scenario := j % 6
+	scenario := j % 8
 	seed := fw.CaseSeed("C10-crafted", c.Seed, j)
 	c.HashAdd("crafted", scenario, seed)
 	lr := rand.New(rand.NewSource(seed ^ 0x77))
+	var legacyKeys []string
+	if scenario == 7 {
+		// the oldest table of the directory is one of the repository's legacy-format fixtures (no metadata file)
+		rd := os.Getenv("VERIF_REPO_DIR")
+		src := filepath.Join(rd, "sstables", "test_files", "v0_compat", "SimpleWriteHappyPathSSTable")
+		dst := filepath.Join(dir, fmt.Sprintf(simpledb.SSTablePattern, 1))
+		if rd == "" || copyDir(src, dst) != nil {
+			c.Inconclusive("legacy fixture table not available")
+			return
+		}
+		if lr, err := sstables.NewSSTableReader(sstables.ReadBasePath(dst), sstables.ReadWithKeyComparator(skiplist.BytesComparator{})); err == nil {
+			if it, err := lr.Scan(); err == nil {
+				for {
+					k, _, err := it.Next()
+					if err != nil {
+						break
+					}
+					legacyKeys = append(legacyKeys, hex.EncodeToString(k))
+				}
+			}
+			_ = lr.Close()
+		}
+	}
 	res := fw.RunSub("", 120, nil, work, "c10craft", "-dir", dir, "-scenario", fmt.Sprint(scenario), "-seed", fmt.Sprint(seed))
 	if res.TimedOut || !strings.Contains(string(res.Stdout), "CRAFTED") {
 		c.Inconclusive(fmt.Sprintf("crafting scenario %d failed (exit %d): %s %s", scenario, res.Exit, cutS(string(res.Stdout), 200), cutS(res.Stderr, 300)))
@@ -191,6 +235,7 @@ func runC10Crafted(c *fw.Case, j int) {
 	for i := 0; i < 8; i++ {
 		keys = append(keys, hex.EncodeToString([]byte(fmt.Sprintf("k%d", i))))
 	}
+	keys = append(keys, legacyKeys...)
 	c.Obs("level1_images", 1)
 	c.Obs("level1_crafted", 1)
 	c.Obs(fmt.Sprintf("level1_crafted_scenario_%d", scenario), 1)
@@ -211,8 +256,14 @@ func runC10Crafted(c *fw.Case, j int) {
 		c.Violate("recovery-crash/crafted-image-not-recoverable/"+errClass(oe, cp), "scenario %d seed %d: the uninterrupted recovery of a hand-placed kill image fails: %s", scenario, seed, oe)
 		return
 	}
+	for _, lk := range legacyKeys {
+		if out.Reads[lk] == nil {
+			c.Violate("recovery-crash/legacy-table-lost", "scenario %d seed %d: key %s of the legacy-format table that the directory started with is gone after the directory was opened, written to, killed and recovered", scenario, seed, showKey(lk))
+			return
+		}
+	}
 	agg := &c10Agg{verdicts: map[string]string{}, counts: map[string]int{}}
-	label := fmt.Sprintf("hand-placed level-1 image, scenario %d (%s) seed=%d", scenario, []string{"WAL with deletes only", "WAL with puts only", "WAL with puts and deletes", "flagged unreflected compaction + WAL", "flagged compaction, inputs half removed + WAL", "compaction over ~190 tables whose success flag is cut between two of its writes + WAL"}[scenario], seed)
+	label := fmt.Sprintf("hand-placed level-1 image, scenario %d (%s) seed=%d", scenario, []string{"WAL with deletes only", "WAL with puts only", "WAL with puts and deletes", "flagged unreflected compaction + WAL", "flagged compaction, inputs half removed + WAL", "compaction over ~190 tables whose success flag is cut between two of its writes + WAL", "flagged unreflected compaction whose merged table is EMPTY (+ WAL)", "legacy-format oldest table + WAL"}[scenario], seed)
 	m := c10Nested(c, work, dir, keys, withCont(out), agg, 2, lr, label)
 	c.Obs("level2_images_recovered", int64(agg.judged))
 	c.Obs("level2_listing_order_variants", int64(agg.variants))
